@@ -59,7 +59,7 @@ def required_cells(tier):
     for i in ("abs", "rel", "dots"):
         cells.append("inc:" + i)
     cells += ["wd:root", "wd:build-inside", "wd:build-outside", "skip:missing/first", "skip:missing/middle", "skip:missing/last",
-              "skip:object", "skip:link", "skip:empty-command", "skip:empty-arguments", "unnamed-file-unattributed",
+              "skip:object", "skip:link", "skip:empty-command", "skip:empty-arguments", "skip:blank-command", "relative-I-missing-in-build-dir", "unnamed-file-unattributed",
               "gcc-confirmed", "class:grid", "class:random", "same-spelling-different-build-dirs"]
     return cells
 
@@ -128,6 +128,8 @@ SKIPS = {
     "link": lambda root: {"file": "build/app", "directory": root, "command": "gcc -o build/app build/obj.o"},
     "empty-command": lambda root: {"file": "src/a.c", "directory": root, "command": ""},
     "empty-arguments": lambda root: {"file": "src/a.c", "directory": root, "arguments": []},
+    "blank-command": lambda root: {"file": "src/a.c", "directory": root, "command": " "},
+    "tab-command": lambda root: {"file": "src/a.c", "directory": root, "command": "\t \n"},
 }
 
 
@@ -300,6 +302,33 @@ def run_shard(ctx):
                 ms.reverse()
             ctx.acc.cells["same-spelling-different-build-dirs"] += 1
             check_db(ctx, base, root, es, ms, [], "grid")
+    # a relative -I that does not exist in the build directory although a directory of that name exists in the root:
+    # the compiler would search build/<name> (nothing there), never root/<name>
+    for wd_kind in ("build-inside", "build-deep", "build-outside"):
+        idx += 1
+        if not ctx.mine(idx):
+            continue
+        wd = {"build-inside": os.path.join(root, "build"), "build-deep": os.path.join(root, "build", "deep"),
+              "build-outside": os.path.join(base, "outbuild")}[wd_kind]
+        src = os.path.join(root, "src", "c.cpp")
+        entry = {"file": src, "directory": wd, "arguments": ["gcc", "-Iinc", "-I", "inc2", "-DX", "-c", src]}
+        dbp = os.path.join(base, "compile_commands.json")
+        with open(dbp, "w") as f:
+            json.dump([entry], f)
+        from codebasin import config
+        try:
+            conf = [e for e in config.load_database(dbp, root) if e.get("pass_name", "default") == "default"]
+            got = [os.path.normpath(p_) for p_ in conf[0]["include_paths"]]
+            want = [os.path.normpath(os.path.join(wd, "inc")), os.path.normpath(os.path.join(wd, "inc2"))]
+            ok = got == want
+        except Exception as e:
+            got, want, ok = f"{type(e).__name__}: {e}", None, False
+        if ok:
+            ctx.acc.held(cells=["relative-I-missing-in-build-dir"], cls="grid", nontrivial=entry)
+        else:
+            ctx.acc.violated({"input": {"entries": [entry]}, "witness": {"entries": [entry], "problems": [
+                {"kind": "relative -I must be interpreted in the entry's directory even if it does not exist there",
+                 "expected": want, "observed": got}]}}, cells=["relative-I-missing-in-build-dir"], cls="grid")
     # R: random multi-entry databases
     rng = ctx.rng("random")
     for i in range(bounds(ctx.tier)["random"]):
